@@ -96,20 +96,79 @@ Qed.
 Print Assumptions c15_updates_reach_listeners.
 
 (* A subscriber joining a cluster that is already watched is first told everything the cluster knows,
-   and -- whatever was missed before -- shows the live set as soon as Monitor returns. *)
+   and -- whatever was missed before -- as soon as Monitor returns it shows the live set AND holds the same
+   keys as the store (every key of a shared value, not one key per value), hence the same mapping as every
+   other non-exclusive subscriber: deleting keys afterwards affects all of them alike. *)
 Theorem c15_late_join_current : forall u vf h oc oa od x, consistent vf h ->
   let h' := h ++ [Subscribe oc oa od] in
   let log := last (subs (run u h')) [] in
-  In log (subs (run u h')) /\
-  (subs (run u h) <> [] ->
-     exists rest, log = map add_call (order_by oc (cur (run u h))) ++ rest /\
-                  Permutation.Permutation (order_by oc (cur (run u h))) (cur (run u h))) /\
-  (forall ops, calls_of ops = log ->
-     exists vs, fst (get_values (crun x ops)) = Ok vs /\ NoDup vs /\
-       forall v, In v vs <->
-         exists k, u k = true /\ kget k (spec_etcd h') = Some v /\ (x = true -> last_add log v = Some k)).
-Proof. exact late_join. Qed.
+  (In log (subs (run u h')) /   (subs (run u h) <> [] ->
+      exists rest, log = map add_call (order_by oc (cur (run u h))) ++ rest /                   Permutation.Permutation (order_by oc (cur (run u h))) (cur (run u h))) /   (forall ops, calls_of ops = log ->
+      exists vs, fst (get_values (crun x ops)) = Ok vs /\ NoDup vs /        forall v, In v vs <->
+          exists k, u k = true /\ kget k (spec_etcd h') = Some v /\ (x = true -> last_add log v = Some k))) /  (forall ops, calls_of ops = log ->
+     forall k v, kget k (mapping (crun x ops)) = Some v <->
+                 u k = true /\ kget k (spec_etcd h') = Some v /\ (x = true -> last_add log v = Some k)).
+Proof. intros u vf h oc oa od x C. split; [apply (late_join u vf h oc oa od x C)|apply (late_join_mapping u vf h oc oa od x C)]. Qed.
 Print Assumptions c15_late_join_current.
+
+(* the keys, not only the values: at every synced point a subscriber's mapping is the store under the prefix *)
+Theorem c15_mapping_converges : forall u vf h, consistent vf h -> synced u h = true ->
+  forall log, In log (subs (run u h)) -> forall x ops, calls_of ops = log ->
+  forall k v, kget k (mapping (crun x ops)) = Some v <->
+              u k = true /\ kget k (spec_etcd h) = Some v /\ (x = true -> last_add log v = Some k).
+Proof. exact mapping_converges. Qed.
+Print Assumptions c15_mapping_converges.
+
+(* at every moment (synced or not) all non-exclusive subscribers of a cluster hold the same mapping *)
+Theorem c15_subscribers_agree : forall u vf h, consistent vf h ->
+  forall log1 log2, In log1 (subs (run u h)) -> In log2 (subs (run u h)) ->
+  forall ops1 ops2, calls_of ops1 = log1 -> calls_of ops2 = log2 ->
+  forall k, kget k (mapping (crun false ops1)) = kget k (mapping (crun false ops2)).
+Proof. exact subscribers_agree. Qed.
+Print Assumptions c15_subscribers_agree.
+
+(* The same (key, value) delivered any number of times (a publisher re-putting its key; one delivery per
+   watch stream) followed by ONE delete of the key: the key is gone, and the value is shown only if another
+   key still carries it. Exclusive or not. *)
+Theorem c15_duplicate_delivery : forall vf x ops k v n, calls_ok vf (calls_of ops) -> v = vf k ->
+  let c := crun x (ops ++ map OCall (repeat (CAdd k v) n) ++ [OCall (CDel k)]) in
+  kget k (mapping c) = None /  exists vs, fst (get_values c) = Ok vs /\ NoDup vs /    forall v', In v' vs <-> exists k', k' <> k /\ kget k' (mapping c) = Some v'.
+Proof. exact duplicate_delivery. Qed.
+Print Assumptions c15_duplicate_delivery.
+
+(* The gRPC resolver (discovBuilder.Build = NewSubscriber; AddListener(update); update()): for EVERY
+   interleaving of Build's steps with calls delivered by the watch goroutines, once Build has finished the
+   last state pushed to the ClientConn is the value list of a container that has received every call
+   (those made during NewSubscriber and all that arrived since): no update is lost. *)
+Theorem c15_resolver_no_lost_update : forall init sched,
+  let r := rrun build_order init sched in
+  r_todo r = [] ->
+  exists ops ps, calls_of ops = init ++ arrived sched /                 r_pushes r = ps ++ [fst (get_values (crun false ops))].
+Proof. exact resolver_no_lost_update. Qed.
+Print Assumptions c15_resolver_no_lost_update.
+
+(* ... hence at a synced point the ClientConn has last been told exactly the live values *)
+Theorem c15_resolver_current : forall u vf h log init sched,
+  consistent vf h -> synced u h = true -> In log (subs (run u h)) -> init ++ arrived sched = log ->
+  let r := rrun build_order init sched in
+  r_todo r = [] ->
+  exists ps vs, r_pushes r = ps ++ [Ok vs] /\ NoDup vs /\ forall v, In v vs <-> live u (spec_etcd h) v.
+Proof. exact resolver_current. Qed.
+Print Assumptions c15_resolver_current.
+
+(* the order matters: pushing before registering loses an update that arrives in between *)
+Example c15_resolver_push_first_loses :
+  let sched := [None; None; Some (CAdd 1 7); None] in
+  let r := rrun [BSubscribe; BPush; BListen] [] sched in
+  r_todo r = [] /\ r_pushes r = [Ok []] /  option_map (fun ops => fst (get_values (crun false ops))) (r_ops r) = Some (Ok [7]).
+Proof. exact resolver_push_first_loses. Qed.
+
+(* keys sharing a value: a late joiner that was told one key per value would drop a live value *)
+Example c15_late_join_shared_keys :
+  let u := fun _ : key => true in
+  let h := [Subscribe [] [] []; Put 1 7 true; Put 2 7 true; Subscribe [] [] []; Del 1 true] in
+  synced u h = true /  map (fun log => fst (get_values (crun false (map OCall log)))) (subs (run u h)) = [Ok [7]; Ok [7]] /  map (fun log => mapping (crun false (map OCall log))) (subs (run u h)) = [[(2, 7)]; [(2, 7)]].
+Proof. vm_compute. repeat split; reflexivity. Qed.
 
 (* Finding D5 (repaired): without `c.values[key] = m` in handleChanges the second reload diffs against the
    first snapshot; a key that appeared during one outage and vanished during a later one stays forever. *)
